@@ -93,9 +93,14 @@ fn expected_err(e: &ErrSpec) -> (Kind, Option<String>) {
 /// Request classes: one representative per stage of the precedence order, both carriers.
 pub fn request_classes() -> Vec<(String, Dims)> {
     let mut out = Vec::new();
-    for qc in [false, true] {
-        let z = Dims { query_carrier: qc, path: 0, query: 0, carrier: 0, alg: 0, syntax: 0, missing: 0, reqs: 0, date: 0, cred: 0, provider: 0, sig: 0 };
-        let c = if qc { "query" } else { "header" };
+    for (qc, token) in [(false, 0u8), (true, 0), (false, 1), (true, 1)] {
+        let z = Dims { query_carrier: qc, path: 0, query: 0, carrier: 0, alg: 0, syntax: 0, missing: 0, reqs: 0, date: 0, cred: 0, provider: 0, sig: 0, token };
+        let c = match (qc, token) {
+            (false, 0) => "header",
+            (true, 0) => "query",
+            (false, _) => "header+token",
+            _ => "query+token",
+        };
         out.push((format!("{}:valid", c), z));
         out.push((format!("{}:bad-path", c), Dims { path: 1, ..z }));
         out.push((format!("{}:bad-query", c), Dims { query: 1, ..z }));
@@ -279,7 +284,7 @@ struct Step {
 }
 
 fn history_alphabet(thorough: bool) -> Vec<Step> {
-    let z = Dims { query_carrier: false, path: 0, query: 0, carrier: 0, alg: 0, syntax: 0, missing: 0, reqs: 0, date: 0, cred: 0, provider: 0, sig: 0 };
+    let z = Dims { query_carrier: false, path: 0, query: 0, carrier: 0, alg: 0, syntax: 0, missing: 0, reqs: 0, date: 0, cred: 0, provider: 0, sig: 0, token: 0 };
     let reqs: Vec<(&'static str, Dims, bool)> = vec![
         ("valid", z, false),
         ("valid-query", Dims { query_carrier: true, ..z }, false),
@@ -435,7 +440,7 @@ pub fn run(ctx: &Ctx) -> Report {
             }
         };
         let mut svc = scratchstack_aws_signature::service_for_signing_key_fn(lookup);
-        let z = Dims { query_carrier: false, path: 0, query: 0, carrier: 0, alg: 0, syntax: 0, missing: 0, reqs: 0, date: 0, cred: 0, provider: 0, sig: 0 };
+        let z = Dims { query_carrier: false, path: 0, query: 0, carrier: 0, alg: 0, syntax: 0, missing: 0, reqs: 0, date: 0, cred: 0, provider: 0, sig: 0, token: 0 };
         let seq: Vec<(&str, Dims, usize, bool)> = vec![
             ("valid", z, 1, true),
             ("expired", Dims { date: 2, ..z }, 0, false),
